@@ -362,7 +362,10 @@ def run(ctx: Ctx) -> None:
         for key, what, case in r['viol']:
             ctx.violation(key, what, case)
     compare(ctx, cases)
-    coverage_report(ctx)
+    try:
+        coverage_report(ctx)
+    except Exception as e:   # the tables no longer have the shape the report expects: not a verdict
+        ctx.notes.append(f'coverage report skipped: {type(e).__name__}: {e}')
     ctx.extra['programs'] = len(cases)
     for c in cases[::max(1, len(cases) // 8)][:8]:
         ctx.sample({'kind': c[0], 'program': c[1], 'impl': c[3][:200]})
